@@ -17,6 +17,7 @@ RULE = ("cases: ordered pairs (top, bottom) of ACE records, bottom derived from 
         "answer implies same action and exact packet-set inclusion (refsem interval / bit algebra, union of "
         "members); answers are monotone in the skip set. Non-trivial: the library answered True for at "
         "least one skip list; distinct by canonical pair")
+RULE += ". Directed classes added after the seeded-change rounds: port sets equal or one port apart at a run end in every one-operator spelling; 17-bit wildcards under max_ncwb=17 (rare); subnet-mask-shaped wildcards; a group below one network / one non-contiguous wildcard / a run of adjacent blocks"
 ASSUMPTIONS = ["refsem packet semantics (flag keywords: any-of; established = ack|rst; ports 1..65535)",
                "k <= 4 non-contiguous bits per address (k = 7, 9 and, with a raised limit, 17 in rare directed classes), <= 4 members per group"]
 
